@@ -633,6 +633,18 @@ def setup():
             up = os.path.join(CACHE, prop + '.units')
             e = run_bins(bins, ['trace'], up) or gen_lean(up, prop)
             if e: log('setup:', e); rcs.append(1)
+    # generated data that is not produced by the loop above: the C16 layout rows and the C03 SIMD model
+    try:
+        rows, lerr, nrows = layout_rows()
+        if lerr: log('setup: layout probe:', lerr[-300:]); rcs.append(1)
+    except Exception as ex:
+        log('setup: layout probe raised', ex); rcs.append(1)
+    try:
+        import checks.c03 as c03
+        merged, gerr = c03.generate()
+        if gerr: log('setup: C03 model:', gerr[-300:]); rcs.append(1)
+    except Exception as ex:
+        log('setup: C03 generation raised', ex); rcs.append(1)
     rc, out, dt = lake_build(['GlmVerif', 'driver'] + ['drv_' + h.lower() for h in H_PROPS], timeout=14400)
     log('setup: lake build rc=%d in %.0fs' % (rc, dt))
     if rc != 0: print(out[-3000:])
